@@ -216,3 +216,17 @@ CHECKS["C07"] = {
         rapid_job("models", "./verifh/c07", "TestModel(Parent|Metadata|EnterLeave|Electric|Vending|Publication|Hail|Booking)", 400, 3000),
     ],
 }
+
+CHECKS["C19"] = {
+    "rule": ("bounded-exhaustive sequences (length <= 4 quick / 5 thorough) over a compact alphabet of create/add/update(normal on/off, masked)/delete(allow-missing)/set-active/change-active/clear-active "
+             "steps on up to 2 modes + an unknown id, alternating between the Model API and the ElectricApi/MemorySettingsApi servers; rapid-drawn sequences of 1-25 steps over up to 4 modes; and 2-4 "
+             "goroutines issuing the same operations concurrently. Invariants after every step / at quiescence: <=1 normal mode, active mode exists once changed, active mode never deleted, clear selects "
+             "the normal mode (NotFound and unchanged without one), switching to a different id stamps the fake clock's reading of that call, same id keeps the start time, deleting an absent mode gives "
+             "NotFound unless allow-missing. non-trivial = sequence that tries to make a second mode normal, deletes the active mode, or changes the active mode; distinct by step/outcome sequence"),
+    "assumptions": ["the model clock is a fake ticking clock; the start time must lie within the ticks consumed by the call"],
+    "jobs": [
+        enum_job("exhaustive", "./verifh/c19", "TestElectricExhaustive", shards={Q: 4, T: 16}, timeout={Q: 600, T: 3000}),
+        rapid_job("sequences", "./verifh/c19", "TestElectricSequences", 4000, 30000),
+        rapid_job("concurrent", "./verifh/c19", "TestElectricConcurrent", 500, 4000, shards_t=8),
+    ],
+}
